@@ -381,6 +381,7 @@ NP_UNARY = {"np.log": sp.log, "np.exp": sp.exp, "numpy.log": sp.log, "numpy.exp"
             "np.arcsin": sp.asin, "math.asin": sp.asin}
 IDENT_CALLS = {"np.array", "np.asarray", "np.float64", "float", "np.copy", "np.atleast_1d"}
 ONES = {"np.ones", "np.ones_like"}
+_FILL_ONE, _FILL_ZERO = sp.Symbol("__np_ones__"), sp.Symbol("__np_zeros__")
 ZEROS = {"np.zeros", "np.zeros_like"}
 
 
@@ -465,7 +466,12 @@ class Formula:
         return r
 
     def block(self, stmts, env, depth, f):
-        for s in stmts:
+        for i_, s in enumerate(stmts):
+            if isinstance(s, ast.If) and not s.orelse and s.body and isinstance(s.body[-1], ast.Return) and \
+                    "isinstance" in norm(s.test) and stmts[i_ + 1:]:
+                # `if isinstance(x, Number): return A` followed by the array form: what follows is the else branch
+                twin = ast.copy_location(ast.If(test=s.test, body=s.body, orelse=list(stmts[i_ + 1:])), s)
+                return self.if_stmt(twin, env, depth, f)
             if isinstance(s, ast.With):
                 r = self.block(s.body, env, depth, f)
                 if r is not None:
@@ -590,6 +596,9 @@ class Formula:
                 return self.field(e.attr)
             if norm(e) in ("np.pi", "math.pi"):
                 return self.alg.param("pi")
+            if norm(e) in ONES or norm(e) in ZEROS:
+                # an array constructor passed as a value (`self._constant(x, 1, np.ones)`): a constant function
+                return _FILL_ONE if norm(e) in ONES else _FILL_ZERO
             raise Undecided(f"attribute {norm(e)[:40]}")
         if isinstance(e, (ast.Tuple, ast.List)):
             return tuple(self.ev(x, env, depth) for x in e.elts)
@@ -634,6 +643,8 @@ class Formula:
                 return TRUNC(self.ev(e.args[0], env, depth))
             if fn in IDENT_CALLS and len(e.args) == 1:
                 return self.ev(e.args[0], env, depth)
+            if isinstance(e.func, ast.Name) and env.get(e.func.id) in (_FILL_ONE, _FILL_ZERO):
+                return sp.Integer(1) if env[e.func.id] == _FILL_ONE else sp.Integer(0)
             if fn in ONES:
                 return sp.Integer(1)   # an array of ones broadcasts like the scalar 1
             if fn in ZEROS:
@@ -652,10 +663,20 @@ class Formula:
                 g = next((x for x in self.repo.funcs.values() if x.module == self.module and x.cls is None
                           and x.name == e.func.id and isinstance(x.node, ast.FunctionDef)), None)
                 if g is not None and not e.keywords and len(e.args) == len(g.params):
-                    sub_env = {p_: self.ev(a_, env, depth) for p_, a_ in zip(g.params, e.args)}
+                    # the receiver handed to a module-level helper (`_trim(self, values)`) stays the receiver there
+                    recv = {p_ for p_, a_ in zip(g.params, e.args) if isinstance(a_, ast.Name) and a_.id == "self"}
+                    sub_env = {p_: self.ev(a_, env, depth) for p_, a_ in zip(g.params, e.args) if p_ not in recv}
+                    g_body = g.node.body
+                    if recv:
+                        import copy as _copy
+
+                        class _Recv(ast.NodeTransformer):
+                            def visit_Name(self, n):
+                                return ast.copy_location(ast.Name(id="self", ctx=n.ctx), n) if n.id in recv else n
+                        g_body = [_Recv().visit(_copy.deepcopy(x)) for x in g_body]
                     saved = self.module
                     try:
-                        return self.body(strip_docstring(g.node.body), sub_env, depth + 1, g)
+                        return self.body(strip_docstring(g_body), sub_env, depth + 1, g)
                     finally:
                         self.module = saved
             if isinstance(e.func, ast.Name) and e.func.id in env and len(e.args) == 1 and \
